@@ -412,6 +412,37 @@ static std::string doStack(const std::vector<std::string>& a) {
     return out;
 }
 
+// the real WFElemStack (WFXMLScanner's element stack) under the same operation sequences; no global declarations, and no
+// lookup on an empty stack (mapPrefixToURI reads fStack[fStackTop - 1]: the generator never asks for it)
+static std::string doWFStack(const std::vector<std::string>& a) {
+    WFElemStack es;
+    es.reset(1, 2, 3, 4);
+    std::string out = "ok";
+    size_t i = 1;
+    long depth = 0;
+    try {
+        while (i < a.size()) {
+            const std::string& op = a[i++];
+            if (op == "A") { es.addLevel(); depth++; }
+            else if (op == "P") { es.popTop(); depth--; }
+            else if (op == "D" && i + 1 < a.size()) {
+                std::u16string p = widen(a[i]);
+                unsigned int u = (unsigned int)atoi(a[i + 1].c_str());
+                i += 2;
+                es.addPrefix((const XMLCh*)p.c_str(), u);
+            } else if (op == "M" && i < a.size() && depth > 0) {
+                std::u16string p = widen(a[i++]);
+                bool unk = false;
+                unsigned int u = es.mapPrefixToURI((const XMLCh*)p.c_str(), unk);
+                out += " " + std::to_string(u) + (unk ? "?" : "");
+            } else { out += " bad-op"; break; }
+        }
+    } catch (const EmptyStackException& e) {
+        out += e.getCode() == XMLExcepts::ElemStack_StackUnderflow ? " !StackUnderflow" : " !EmptyStack";
+    } catch (const XMLException& e) { out += " !XMLException:" + nm(e.getType()); }
+    return out;
+}
+
 int main() {
     XMLPlatformUtils::Initialize();
     std::string line;
@@ -422,6 +453,7 @@ int main() {
             if (a[0] == "parse") r = doParse(a);
             else if (a[0] == "emptydoc") r = doEmptyDoc(a);
             else if (a[0] == "stack") r = doStack(a);
+            else if (a[0] == "wfstack") r = doWFStack(a);
         }
         std::cout << r << "\n";
     }
